@@ -258,3 +258,18 @@ theorem levelsCount_total (t : TTables) (pws : List Str) : ((t.levelsCount pws).
   simp
 
 end Omen
+
+namespace Omen
+
+/-- the keyspace file lists every level of the keyspace counter once -/
+theorem keyspaceFile_perm (ks : List (Nat × Nat)) : (keyspaceFile ks).Perm ks := by
+  unfold keyspaceFile
+  exact (List.reverse_perm _).trans (List.mergeSort_perm ks _)
+
+/-- every level that receives a probability (hence every level the guesser can be inside) has its line in the keyspace file -/
+theorem prob_level_in_keyspaceFile {Q : Type} (O : NOps Q) (ks : List (Nat × Nat)) (c : LCtr) (n : Nat) (level : Nat) (p : Q)
+    (h : (level, p) ∈ omenProbs O ks c n) : ∃ k, (level, k) ∈ keyspaceFile ks := by
+  obtain ⟨k, hk, _, _⟩ := (omenProbs_mem O ks c n level p).1 h
+  exact ⟨k, (keyspaceFile_perm ks).mem_iff.mpr hk⟩
+
+end Omen
